@@ -48,6 +48,39 @@ pub fn eval(ctx: &mut Ctx, c: &EncCase, tag: &str) {
     ctx.sample(|| c.describe().set("latches", crate::json::J::s(d.latches.iter().map(|m| m.name()).collect::<Vec<_>>().join(","))));
 }
 
+/// the same rule observed through the string entry point (`encode_str` on a configured builder): Latin-1 strings and
+/// strings that need the UTF-8 ECI
+pub fn eval_str(ctx: &mut Ctx, s: &str, cfg: &EncCase, tag: &str) {
+    ctx.eval();
+    let case = || {
+        let mut c = cfg.to_case("modes_str");
+        c.f.insert("utf8".into(), crate::json::hex(s.as_bytes()));
+        c.f.remove("input");
+        c
+    };
+    crate::ctx::trace_case(|| case().flat());
+    let Some(b) = builder(cfg) else { return ctx.harness_error("bad list spec") };
+    let data = match crate::ctx::guard(|| b.encode_str(s).map(|dm| dm.data_codewords().to_vec())) {
+        Ok(Ok(d)) => d,
+        Ok(Err(_)) => return ctx.count("encode.refused"),
+        Err(_) => return ctx.count("encode.panic(C11)"),
+    };
+    let d = match dec::decode(&data) {
+        Ok(d) => d,
+        Err(_) => return ctx.count("rdec_rejects_stream(C02)"),
+    };
+    for m in &d.latches {
+        if cfg.mask & m.bit() == 0 {
+            return ctx.violation("latch_into_disabled_mode", &case(), format!("encode_str: stream latches into {} but enabled modes are {}; stream {:?}", m.name(), crate::util::mask_names(cfg.mask), &data[..data.len().min(40)]));
+        }
+    }
+    ctx.count(&format!("workload.{}", tag));
+    ctx.count_n("latches_checked", d.latches.len() as u64);
+    if cfg.mask != 63 {
+        ctx.nontrivial(crate::rng::hash64(case().flat().as_bytes()));
+    }
+}
+
 pub fn run(ctx: &mut Ctx) {
     // all 63 subsets on a fixed set of mixed inputs
     let fixed: Vec<Vec<u8>> = vec![
@@ -100,9 +133,31 @@ pub fn run(ctx: &mut Ctx) {
             c.input.truncate(3116);
         }
         eval(ctx, &c, "generated");
+        if i % 4 == 1 {
+            // the string entry point with the same configuration
+            let mut st: String = c.input.iter().take(400).map(|b| *b as char).filter(|ch| !ch.is_control()).collect();
+            if i % 8 == 1 {
+                st.push_str(*ctx.rng.pick(&["\u{20ac}", "\u{3b1}\u{3b2}", "\u{65e5}\u{672c}\u{8a9e}", "\u{1f600}"]));
+                if ctx.rng.chance(1, 2) {
+                    st.insert(0, '\u{3a9}');
+                }
+            }
+            let mut cfg = c.clone();
+            cfg.input.clear();
+            cfg.entry = 0;
+            eval_str(ctx, &st, &cfg, "generated_strings");
+        }
     }
 }
 
 pub fn replay(ctx: &mut Ctx, case: &Case) {
+    if case.kind == "modes_str" {
+        let mut cfg = EncCase::from_case(case);
+        cfg.input.clear();
+        return match String::from_utf8(case.get_bytes("utf8")) {
+            Ok(s) => eval_str(ctx, &s, &cfg, "replay"),
+            Err(_) => ctx.harness_error("replay string not utf8"),
+        };
+    }
     eval(ctx, &EncCase::from_case(case), "replay");
 }
